@@ -354,3 +354,36 @@ def judge(case, impl):
 
 def compare(case, impl, model):
     return impl == model                              # outcome kind exact, lambda and v bit for bit
+
+
+# ---- extraction cross-check: the same cases evaluated inside Coq by vm_compute
+from tools import xenc
+COQ_IMPORTS = 'Base.XEnc Model.Power'
+XCHECK_N = 200
+
+
+def coq_term(case):
+    t = xenc.Toks(case.line)
+    cmd = t.word()
+    es = t.fl()
+    if cmd in ('pm', 'pma'):
+        h, w, rows = t.fmat()
+    elif cmd == 'rag':
+        rows = [t.fvec() for _ in range(t.int())]
+    else:
+        return None
+    kind = case.meta.get('kind') if isinstance(case.meta, dict) else None
+    # a run that exhausts the 100000 iterations costs ~2 s (2x2) to ~7 s (4x4) under vm_compute: of the
+    # 'termination' classes only a few 1x1 / 2x2 cases are taken; the converging and the malformed ones are thinned by crc
+    if kind == 'termination':
+        if len(rows) > 2 or not xenc.keep(case, 3 if len(rows) == 1 else 20):
+            return None
+    elif not xenc.keep(case, 9 if kind == 'accuracy' else 3):
+        return None
+    # Ok (lambda, v) -> 0 :: bits lambda :: height :: width :: entries
+    return ('enc_res (fun lv => float_bits (fst lv) :: Z.of_nat (ah (snd lv)) :: Z.of_nat (aw (snd lv)) :: map float_bits (ad (snd lv))) '
+            '(@power_method float FNum %s %s%%float)' % (xenc.cq_fmat(rows), xenc.coq_float(es)))
+
+
+def encode_result(case, model_line):
+    return xenc.enc_line(model_line, lambda t: [xenc.float_tok_bits(t[0]), int(t[1]), int(t[2])] + [xenc.float_tok_bits(x) for x in t[3:]])
